@@ -97,6 +97,7 @@ class Contracts(object):
     # -- model helpers (cached) ----------------------------------------------------------------
     def o_min(self, measure, t, n):
         """least overlap of any `required` pair involving a set of n tokens (subset partner)."""
+        t = float(t)            # (numpy scalars / 0-d arrays are not hashable cache keys)
         key = ('omin', measure, t, n)
         if key not in self._cache:
             lo, hi, ans = 1, n, None
@@ -113,6 +114,7 @@ class Contracts(object):
 
     def b_max(self, measure, t, n):
         """largest partner size of any `required` pair involving a set of n tokens (superset)."""
+        t = float(t)
         key = ('bmax', measure, t, n)
         if key not in self._cache:
             # (capped: for thresholds next to zero the true maximum is astronomically large or not
@@ -213,6 +215,7 @@ class Contracts(object):
         def post_overlap(l_num_tokens, r_num_tokens, sim_measure_type, threshold, result):
             C.evals['get_overlap_threshold'] += 1
             if sim_measure_type in RATIO and l_num_tokens >= 1 and r_num_tokens >= 1:
+                threshold = float(threshold)
                 key = ('mo', sim_measure_type, threshold, l_num_tokens, r_num_tokens)
                 mo = C._cache.get(key, 0)
                 if mo == 0:
@@ -358,7 +361,7 @@ def _build_traced():
     import py_stringmatching as sm
     out = {}
     from rv import tables as _tables
-    user = [_tables.user_tokenizer_class(n) for n in ('lower', 'strip', 'qlower', 'memo')]
+    user = [_tables.user_tokenizer_class(n) for n in ('lower', 'strip', 'qlower', 'memo', 'tuple', 'tolerant')]
     for base in [sm.WhitespaceTokenizer, sm.DelimiterTokenizer, sm.QgramTokenizer,
                  sm.AlphabeticTokenizer, sm.AlphanumericTokenizer] + user:
         cls = _traced(base)
